@@ -14,4 +14,5 @@ for p in "$@"; do
   echo "$out" | grep -E "seed=" | cut -c1-220 | tail -1
 done
 git -C /repo checkout -- .
+(cd /verif && /venv/bin/python harness/translate_classes.py >/dev/null 2>&1)   # the generated class table follows /repo again
 git -C /repo status --short | head -3
